@@ -10,6 +10,10 @@ R  a variable x ~ family(params) (params constants or other Vars), optionally wi
    log_prob, the original variable's value, Model.log_prob.  Coq evaluates the model of Bijector.v
    (the SAME constants the theorems of Properties/C14.v are about) at the same exact dyadic inputs and
    `interval` certifies agreement within a relative tolerance.
+C  chained transformations: the new variable is transformed again (2-3 links, any mix of instance / class /
+   default), then the innermost new variable is assigned; every variable of the chain and the innermost
+   log-density are compared with the model's chain_up / chain_logpdf (composition of the forwards, sum of the
+   log-Jacobians).  K: flags along chains (vm_compute).
 S  flags / refusals of Var.transform and GraphBuilder.transform on all argument shapes (vm_compute).
 A  auto-transform in build_model on random lists of variables (vm_compute).
 
@@ -27,6 +31,7 @@ from . import common
 from .common import blit, lst, rlit, strlit
 
 HEADER_R = """From Coq Require Import Reals List Bool String.
+Import ListNotations.
 From Interval Require Import Tactic.
 From LV Require Import Analytic.Bijector Analytic.CorrC14.
 Open Scope R_scope.
@@ -405,8 +410,422 @@ def oracle_a(case):
     return None
 
 
+# ----------------------------------------------------------------------------------------------
+# chained transformations (type "C"): x -> t1 = x.transform(l1) -> t2 = t1.transform(l2) [-> t3]
+# ----------------------------------------------------------------------------------------------
+C_CLS_COQ = {"Scale": "cScale", "Shift": "cShift", "SoftplusH": "cSoftplusH", "SigmoidLH": "cSigmoidLH"}
+DEP_CHAIN = bool(__import__("os").environ.get("LV_C14_DEP_CHAIN"))   # see notes/C14.md: fails on the unchanged tree
+
+
+def chain_names(k):
+    return ["x" + "_transformed" * i for i in range(k + 1)]
+
+
+def pair_term(args) -> str:
+    a = [rlit(F(x)) for x in args] + ["0", "0"]
+    return f"({a[0]}, {a[1]})"
+
+
+def link_term(case, ln) -> str:
+    pa = "PDeprecated" if case["path"] == "dep" else "PVar"
+    if ln["kind"] == "inst":
+        spec = f"(@BInst (R * R) {bij_inst_term(ln['name'], ln['args'])})"
+    elif ln["kind"] == "cls":
+        spec = f"(BCls {C_CLS_COQ[ln['name']]})"
+    else:
+        spec = "(@BDefault (R * R))"
+    return f"(mkLink {pa} {spec})"
+
+
+def cur_chain(case, k):
+    """distribution parameters and per-link bijector args in force at step k (-1: initial)"""
+    p = dict(case["params"])
+    la = [list(ln.get("args", [])) for ln in case["links"]]
+    for st in case["steps"][: k + 1]:
+        for kk, v in st.get("params", {}).items():
+            if kk in case["param_vars"]:
+                p[kk] = v
+        for i, a in enumerate(st.get("largs", [])):
+            if a is not None and case["links"][i]["kind"] == "cls" and case["links"][i].get("arg_vars"):
+                la[i] = list(a)
+    return p, la
+
+
+def chain_terms(case, k):
+    """(ls, P, args) Coq terms at step k; lists NEWEST first"""
+    p, la = cur_chain(case, k)
+    ls = "[" + "; ".join(link_term(case, ln) for ln in reversed(case["links"])) + "]"
+    args = "[" + "; ".join(pair_term(a if ln["kind"] == "cls" else []) for ln, a in
+                           reversed(list(zip(case["links"], la)))) + "]"
+    return ls, p_term(case["fam"], p), args
+
+
+def run_c_case(case) -> dict:
+    J = jx()
+    jnp, lsl, tfd = J["jnp"], J["lsl"], J["tfd"]
+    dep = case["path"] == "dep"
+    dt = jnp.float32 if dep else jnp.float64
+    f = lambda v: jnp.asarray(float(F(v)), dtype=dt)
+    obs = {"dtype": "float32" if dep else "float64", "steps": []}
+    names = chain_names(len(case["links"]))
+    try:
+        fam = FAMS[case["fam"]]
+        pn = {}
+        for k in fam["params"]:
+            pn[k] = lsl.Var(f(case["params"][k]), name=k) if k in case["param_vars"] else f(case["params"][k])
+        x = lsl.Var(f(case["v0"]), lsl.Dist(getattr(tfd, case["fam"]), **pn), name="x")
+        x.parameter = case["parameter"]
+        roots = [x]
+        if case.get("child"):
+            y = lsl.Var(f(case["child"]["y"]), lsl.Dist(tfd.Normal, loc=x, scale=f(case["child"]["s"])), name="y")
+            y.observed = True
+            roots = [y]
+        gb = lsl.GraphBuilder(to_float32=False) if dep else None
+        cur = x
+        chain_vars = [x]
+        with warnings.catch_warnings():
+            warnings.simplefilter("ignore")
+            for i, ln in enumerate(case["links"]):
+                targs, tkw = [], {}
+                if ln["kind"] == "inst":
+                    bij = make_inst(ln["name"], ln["args"], f)
+                elif ln["kind"] == "cls":
+                    bij = cls_of(ln["name"])
+                    for j, (kw, val) in enumerate(zip(BIJS[ln["name"]][1], ln["args"])):
+                        node = lsl.Var(f(val), name=f"l{i}a{j}") if ln["arg_vars"] else f(val)
+                        if ln.get("positional") and ln["name"] != "SoftplusH":
+                            targs.append(node)
+                        else:
+                            tkw[kw] = node
+                else:
+                    bij = None
+                cur = gb.transform(cur, bij, *targs, **tkw) if dep else cur.transform(bij, *targs, **tkw)
+                chain_vars.append(cur)
+            obs["x_after"] = fr(x.value)
+            # outside of a model: assign the newest variable, update the chain in input order, then restore
+            old = cur.value
+            cur.value = f(case["steps"][0]["t"])
+            for v in reversed(chain_vars):
+                v.update()
+            obs["pre"] = [fr(v.value) for v in chain_vars]
+            cur.value = old
+            for v in reversed(chain_vars):
+                v.update()
+            if dep:
+                gb.add(*roots)
+                model = gb.build_model()
+            else:
+                model = lsl.Model(roots, to_float32=False)
+        mv = model.vars
+        if any(n not in mv for n in names):
+            obs["raised"] = f"variables {names} expected after the chained transformation, model has {sorted(mv)}"
+            return obs
+        VS = [mv[n] for n in names]
+
+        def snap():
+            return {"vals": [fr(v.value) for v in VS], "lp": fr(VS[-1].log_prob), "mlp": fr(model.log_prob),
+                    "older_lp": [float(v.log_prob) for v in VS[:-1]]}
+
+        obs["init"] = snap()
+        obs["flags"] = [flags_of(v) for v in VS]
+        for st in case["steps"]:
+            for k, v in st.get("params", {}).items():
+                if k in case["param_vars"]:
+                    mv[k].value = f(v)
+            for i, a in enumerate(st.get("largs", [])):
+                ln = case["links"][i]
+                if a is not None and ln["kind"] == "cls" and ln.get("arg_vars"):
+                    for j, v in enumerate(a):
+                        mv[f"l{i}a{j}"].value = f(v)
+            VS[-1].value = f(st["t"])
+            obs["steps"].append(snap())
+    except NonFinite as ex:
+        obs["raised"] = f"non-finite value / log_prob observed ({ex}) after {len(obs['steps'])} assignments"
+    except Exception as ex:
+        obs["raised"] = f"{type(ex).__name__}: {str(ex)[:200]}"
+    return obs
+
+
+def oracle_c(case):
+    obs = case["obs"]
+    J = jx()
+    jax, jnp, tfd, tfb = J["jax"], J["jnp"], J["tfd"], J["tfb"]
+    f64 = lambda v: jnp.asarray(float(F(v)), dtype=jnp.float64)
+    rel = 1e-7 if obs["dtype"] == "float64" else 2e-4
+    close = lambda a, b: abs(float(a) - float(b)) <= rel * max(1.0, abs(float(b)))
+    names = chain_names(len(case["links"]))
+    if "pre" in obs:
+        p, la = cur_chain(case, -1)
+        cur_dist = getattr(tfd, case["fam"])(**{kk: f64(v) for kk, v in p.items()})
+        want = [f64(case["steps"][0]["t"])]
+        bl = []
+        for ln, a in zip(case["links"], la):
+            b = cur_dist.experimental_default_event_space_bijector() if ln["kind"] == "default" else make_inst(ln["name"], a, f64)
+            bl.append(b)
+            cur_dist = tfd.TransformedDistribution(cur_dist, tfb.Invert(b))
+        for b in reversed(bl):
+            want.append(b.forward(want[-1]))
+        for nm, got, w in zip(names, obs["pre"], reversed(want)):
+            if not close(got, w):
+                return (f"outside a model: after assigning {names[-1]} = {float(want[0])} and updating the chain, the variable {nm} = "
+                        f"{float(got)} is not the image {float(w)} of the new variable under the composed forwards")
+    if "raised" in obs:
+        return f"chained transformation / assigning failed: {obs['raised']}"
+    fl = obs["flags"]
+    if [w["name"] for w in fl] != names:
+        return f"names of the chain wrong: {[w['name'] for w in fl]}"
+    if fl[-1]["parameter"] != case["parameter"] or any(w["parameter"] for w in fl[:-1]):
+        return f"parameter flag is not on the newest variable only: {[(w['name'], w['parameter']) for w in fl]}"
+    if any(w["has_dist"] or not w["weak"] for w in fl[:-1]) or not fl[-1]["has_dist"] or fl[-1]["weak"]:
+        return f"only the newest variable may keep a distribution / be strong: {fl}"
+    if not close(obs["x_after"], F(case["v0"])):
+        return f"original value changed by the chained transformation: {float(obs['x_after'])} instead of {float(F(case['v0']))}"
+    for k, s in [(-1, obs["init"])] + list(enumerate(obs["steps"])):
+        p, la = cur_chain(case, k)
+        dist = getattr(tfd, case["fam"])(**{kk: f64(v) for kk, v in p.items()})
+        cur_dist, bijs = dist, []
+        for ln, a in zip(case["links"], la):
+            b = cur_dist.experimental_default_event_space_bijector() if ln["kind"] == "default" else make_inst(ln["name"], a, f64)
+            bijs.append(b)
+            cur_dist = tfd.TransformedDistribution(cur_dist, tfb.Invert(b))
+
+        def images(t):
+            out = [t]
+            for b in reversed(bijs):
+                out.append(b.forward(out[-1]))
+            return out          # newest ... original
+
+        if k == -1:
+            t = f64(case["v0"])
+            for b in bijs:
+                t = b.inverse(t)
+            if not close(s["vals"][-1], t):
+                return f"initial value of the newest variable {float(s['vals'][-1])} is not the composed inverse image {float(t)}"
+            if not close(s["vals"][0], F(case["v0"])):
+                return f"original value not preserved by the chain: {float(s['vals'][0])} instead of {float(F(case['v0']))}"
+        else:
+            t = f64(case["steps"][k]["t"])
+        im = images(t)
+        want_vals = list(reversed(im))      # original ... newest
+        for nm, got, want in zip(names, s["vals"], want_vals):
+            if not close(got, want):
+                return (f"step {k}: after assigning {names[-1]} = {float(t)} the variable {nm} = {float(got)} is not the image "
+                        f"{float(want)} of the new variable under the composed forwards")
+        jac = jnp.log(jnp.abs(jax.grad(lambda u: images(u)[-1])(t)))
+        want = dist.log_prob(im[-1]) + jac
+        if not close(s["lp"], want):
+            return (f"step {k}: log-density of {names[-1]} {float(s['lp'])} is not log p(image) + sum of log-Jacobians = "
+                    f"{float(want)} at t = {float(t)}")
+        if any(v != 0.0 for v in s["older_lp"]):
+            return f"step {k}: an older variable of the chain still has a log_prob: {s['older_lp']}"
+        oth = 0.0
+        if case.get("child"):
+            oth = float(tfd.Normal(im[-1], f64(case["child"]["s"])).log_prob(f64(case["child"]["y"])))
+        if not close(s["mlp"], float(want) + oth):
+            return f"step {k}: Model.log_prob {float(s['mlp'])} is not {float(want) + oth}"
+    return None
+
+
+SMALL = [F(1, 4), F(1, 2), F(3, 4), F(1), F(3, 2), F(2)]     # keeps the composed image moderate
+
+
+def later_links(dom):
+    """bijectors that map onto `dom` (the set the previous new variable lives on) + their own domain"""
+    if dom == "real":
+        return ["Scale", "Shift", "Scale", "default"]
+    return ["Exp", "Softplus", "SoftplusH", "Scale", "RecipSoftplus", "default"]
+
+
+FIRST_ONTO = {"real": ["Identity", "Scale", "Shift"], "pos": ["Exp", "Softplus", "SoftplusH", "Scale", "RecipSoftplus"],
+              "above": [], "unit": ["Sigmoid"]}
+
+
+def gen_c_case(rnd, fam, nlinks, nsteps, first=None, kinds=None, path="var"):
+    """a chained case; links oldest first.  Later links are onto the set of the variable they transform."""
+    sup = FAMS[fam]["support"]
+    params = gen_params(rnd, fam, nonpos_loc=True)
+    links = []
+    # first link
+    k0 = (kinds or [None])[0] or rnd.choice(["inst", "inst", "cls", "default"])
+    if k0 == "default":
+        name = DEFAULT_BIJ[fam]
+        if fam == "HalfCauchy":
+            params["loc"] = dy(rnd, -2, 2, 4)
+        links.append({"kind": "default", "name": name, "args": []})
+        dom, onto, v_args = "real", True, ([params["loc"]] if name == "ShiftExp" else [])
+    else:
+        cand = [b for b in compatible_bijs(fam) if (k0 != "cls" or BIJS[b][1] is not None)]
+        name = first or rnd.choice(cand)
+        args = gen_bij_args(rnd, fam, name)
+        links.append({"kind": k0, "name": name, "args": args, "arg_vars": rnd.random() < 0.5 if k0 == "cls" else False,
+                      "positional": rnd.random() < 0.4})
+        dom, onto, v_args = t_domain(fam, name), name in FIRST_ONTO[sup], args
+    v0 = gen_v0(rnd, name, v_args, dom, False)
+    for i in range(1, nlinks):
+        ki = (kinds[i] if kinds and i < len(kinds) and kinds[i] else rnd.choice(["inst", "inst", "cls", "default"]))
+        if ki == "default" and not (onto and all(l["kind"] != "cls" or not l.get("arg_vars") for l in links)):
+            ki = "inst"    # the default of a transformed distribution needs the previous links onto / fixed
+        if ki == "default":
+            links.append({"kind": "default", "name": "TDdefault", "args": []})
+            dom = "real"
+            continue
+        cand = [b for b in later_links(dom) if b != "default" and (ki != "cls" or BIJS[b][1] is not None)]
+        nm = rnd.choice(cand)
+        if nm == "Scale":
+            c = rnd.choice(SMALL)
+            args = [-c] if (dom == "real" and rnd.random() < 0.4) else [c]
+        elif nm == "Shift":
+            args = [dy(rnd, -2, 2, 4)]
+        elif nm == "SoftplusH":
+            args = [rnd.choice([F(1, 2), F(1), F(2)])]
+        else:
+            args = []
+        links.append({"kind": ki, "name": nm, "args": args, "arg_vars": rnd.random() < 0.5 if ki == "cls" else False,
+                      "positional": rnd.random() < 0.4})
+        dom = "pos" if (nm == "Scale" and dom == "pos") else "real"
+    param_vars = [k for k in FAMS[fam]["params"] if rnd.random() < 0.4]
+    if any(l["kind"] == "default" and l["name"] == "TDdefault" for l in links) and fam == "HalfCauchy":
+        param_vars = [k for k in param_vars if k != "loc"]
+    steps = []
+    for j in range(nsteps):
+        st = {"t": gen_t(rnd, dom, False) if dom == "pos" else dy(rnd, -2, 2, 8)}
+        if j >= 1:
+            newp = gen_params(rnd, fam, nonpos_loc=True)
+            chg = {k: newp[k] for k in param_vars}
+            if fam == "HalfCauchy" and links[0]["kind"] == "default" and "loc" in chg:
+                chg["loc"] = dy(rnd, -2, 2, 4)
+            st["params"] = chg
+            la = []
+            for i, l in enumerate(links):
+                if l["kind"] == "cls" and l.get("arg_vars"):
+                    if l["name"] == "Scale":
+                        c = rnd.choice(SMALL if i > 0 else POS)
+                        la.append([c if F(l["args"][0]) > 0 else -c])    # keep the sign (the domains depend on it)
+                    elif i == 0:
+                        la.append(gen_bij_args(rnd, fam, l["name"]))
+                    elif l["name"] == "Shift":
+                        la.append([dy(rnd, -2, 2, 4)])
+                    else:
+                        la.append([rnd.choice([F(1, 2), F(1), F(2)])])
+                else:
+                    la.append(None)
+            st["largs"] = la
+        steps.append(st)
+    return {"type": "C", "fam": fam, "params": params, "param_vars": param_vars, "path": path,
+            "parameter": rnd.random() < 0.7, "links": links, "v0": v0,
+            "child": {"s": rnd.choice(POS), "y": dy(rnd, -2, 3, 4)} if rnd.random() < 0.5 else None, "steps": steps}
+
+
+def gen_c_cases(ctx, rnd):
+    nsteps = 2 if ctx.quick else 3
+    cases = []
+    frnd = random.Random(414)
+    # corpus: instance first, then a second transformation that replaces the new variable's value node
+    fixed = [("Gamma", 2, "Exp", ["inst", "inst"]), ("Gamma", 2, "Exp", ["inst", "cls"]), ("HalfNormal", 2, "Softplus", ["inst", "default"]),
+             ("InverseGamma", 3, "Exp", ["inst", "inst", "cls"]), ("Normal", 2, "Shift", ["cls", "inst"]),
+             ("Beta", 2, None, ["default", "inst"]), ("LogNormal", 3, None, ["default", "cls", "inst"]),
+             ("Exponential", 3, "Scale", ["inst", "inst", "default"])]
+    for fam, n, first, kinds in fixed:
+        c = gen_c_case(frnd, fam, n, nsteps, first=first, kinds=kinds)
+        c["corpus"] = True
+        cases.append(c)
+    n_rand = 2 if ctx.quick else 12
+    for fam in FAMS:
+        for _ in range(n_rand):
+            cases.append(gen_c_case(rnd, fam, rnd.choice([2, 2, 3]), nsteps))
+    if DEP_CHAIN:
+        for fam in ("Gamma", "Normal"):
+            cases.append(gen_c_case(rnd, fam, 2, nsteps, kinds=["inst", "inst"], path="dep"))
+    return cases
+
+
+def c_goals(case) -> list[str]:
+    obs = case["obs"]
+    dt = obs["dtype"]
+    oth = others_term(case)
+    D = FAMS[case["fam"]]["coq"]
+    k = len(case["links"])
+    goals = []
+
+    def g(term, v):
+        goals.append(f"obs_close {term} {rlit(v)} {rlit(tol_of(v, dt))}")
+
+    ls, P0, A0 = chain_terms(case, -1)
+    init = f"(chain_init {D} {ls} {P0} {A0} {rlit(F(case['v0']))})"
+    s = obs["init"]
+    g(init, s["vals"][-1])
+    # the remaining initial observations are taken at the value the implementation's newest variable
+    # actually holds (an exact float literal, certified close to chain_init by the goal above)
+    t0 = rlit(s["vals"][-1])
+    g(f"(chain_logpdf {D} {ls} {P0} {A0} {t0})", s["lp"])
+    for j in range(k):      # older variable j (0 = nearest to the newest) is vals[k-1-j]
+        g(f"(nth_val (chain_up {D} {ls} {P0} {A0} {t0}) {j})", s["vals"][k - 1 - j])
+    if case.get("child"):
+        g(f"(chain_model_lp {oth} {D} {ls} {P0} {A0} {t0})", s["mlp"])
+    for i, s in enumerate(obs["steps"]):
+        ls, Pk, Ak = chain_terms(case, i)
+        t = rlit(F(case["steps"][i]["t"]))
+        g(f"(chain_logpdf {D} {ls} {Pk} {Ak} {t})", s["lp"])
+        for j in range(k):
+            g(f"(nth_val (chain_up {D} {ls} {Pk} {Ak} {t}) {j})", s["vals"][k - 1 - j])
+        if case.get("child"):
+            g(f"(chain_model_lp {oth} {D} {ls} {Pk} {Ak} {t})", s["mlp"])
+    return goals
+
+
+# structural chains (type "K")
+def gen_k_cases(ctx, rnd):
+    cases = []
+    kinds_ok = ["inst", "cls_args", "default"]
+    for n in (2, 3):
+        for _ in range(6 if ctx.quick else 30):
+            ks = [(rnd.random() < 0.8, rnd.choice(kinds_ok if rnd.random() < 0.85 else S_KINDS)) for _ in range(n)]
+            if not all(vp for vp, _ in ks):
+                ks = [(False, k) for _, k in ks] if rnd.random() < 0.5 else [(True, k) for _, k in ks]
+            cases.append({"type": "K", "kinds": ks,
+                          "var": {"name": rnd.choice(["x", "tau2"]), "parameter": rnd.random() < 0.6, "observed": rnd.random() < 0.2,
+                                  "has_dist": True, "weak": False, "auto": rnd.random() < 0.2, "default": rnd.random() < 0.8}})
+    return cases
+
+
+def run_k_case(case):
+    J = jx()
+    jnp, lsl, tfb = J["jnp"], J["lsl"], J["tfb"]
+    f = lambda v: jnp.asarray(float(F(v)), dtype=jnp.float32)
+    x = make_var(case["var"], f)
+    allv = [x]
+    gb = lsl.GraphBuilder()
+    try:
+        with warnings.catch_warnings():
+            warnings.simplefilter("ignore")
+            for vp, kind in case["kinds"]:
+                bij, args = {"inst": (tfb.Scale(f(2)), ()), "inst_args": (tfb.Scale(f(2)), (f(1),)), "cls": (tfb.Scale, ()),
+                             "cls_args": (tfb.Scale, (f(2),)), "default": (None, ()), "other": ("scale", ())}[kind]
+                allv.append(allv[-1].transform(bij, *args) if vp else gb.transform(allv[-1], bij, *args))
+        return [flags_of(v) for v in allv]
+    except Exception as ex:
+        case["err"] = f"{type(ex).__name__}: {str(ex)[:120]}"
+        return None
+
+
+def oracle_k(case):
+    o = case["obs"]
+    if o is None:
+        return None         # refusals are judged by the model (agrees_c); the property speaks about successful chains
+    if o[-1]["parameter"] != case["var"]["parameter"] or any(w["parameter"] or w["has_dist"] or not w["weak"] for w in o[:-1]) \
+            or not o[-1]["has_dist"] or o[-1]["weak"]:
+        return f"flags along the chain wrong: {o}"
+    return None
+
+
+def k_row(c) -> str:
+    ks = lst(f"({blit(vp)}, {S_KIND_COQ[k]})" for vp, k in c["kinds"])
+    ob = "None" if c["obs"] is None else f"(Some {lst(var_lit(w) for w in c['obs'])})"
+    return f"(mkC {ks} {var_lit(c['var'])} {ob})"
+
+
 def oracle(case):
-    return {"R": oracle_r, "S": oracle_s, "A": oracle_a}[case["type"]](case)
+    return {"R": oracle_r, "S": oracle_s, "A": oracle_a, "C": oracle_c, "K": oracle_k}[case["type"]](case)
 
 
 # ----------------------------------------------------------------------------------------------
@@ -685,7 +1104,7 @@ def run_a_case(case):
 def generate(ctx):
     rnd = random.Random(ctx.seed)
     jx()
-    cases = gen_r_cases(ctx, rnd) + gen_s_cases(ctx, rnd) + gen_a_cases(ctx, rnd)
+    cases = gen_r_cases(ctx, rnd) + gen_c_cases(ctx, rnd) + gen_s_cases(ctx, rnd) + gen_a_cases(ctx, rnd) + gen_k_cases(ctx, rnd)
     distinct = set()
     n_eval = 0
     for c in cases:
@@ -707,6 +1126,21 @@ def generate(ctx):
             n_eval += 1 + len(c["steps"])
             distinct.add((c["fam"], c["bij"]["kind"], c["bij"]["name"], c["path"], str(c["params"]), str(c["v0"]),
                           str(c["steps"])))
+        elif c["type"] == "C":
+            c["obs"] = run_c_case(c)
+            kinds = "+".join(l["kind"] + ("VarArgs" if l.get("arg_vars") else "") for l in c["links"])
+            ctx.hist(f"C chain of {len(c['links'])} links")
+            ctx.hist(f"C chain kinds (oldest first) {kinds}")
+            ctx.hist(f"C family={c['fam']}")
+            if c["links"][0]["kind"] == "inst":
+                ctx.hist("C first link by instance, value node of the new variable replaced by a later link")
+            n_eval += 1 + len(c["steps"])
+            distinct.add(("C", c["fam"], str(c["links"]), str(c["params"]), str(c["v0"]), str(c["steps"])))
+        elif c["type"] == "K":
+            c["obs"] = run_k_case(c)
+            ctx.hist(f"K chained flags {'ok' if c['obs'] is not None else 'raises'}")
+            n_eval += 1
+            distinct.add(("K", str(c["kinds"]), str(sorted(c["var"].items()))))
         elif c["type"] == "S":
             c["obs"] = run_s_case(c)
             ctx.hist(f"S {'Var.transform' if c['var_path'] else 'GraphBuilder.transform'} {'ok' if 'x' in c['obs'] else 'raises'}")
@@ -719,7 +1153,8 @@ def generate(ctx):
             distinct.add(("A", str(c["vars"])))
     ctx.count(n_eval, len(distinct))
     ctx.cov["rule"] = ("R: one evaluation per (case, assignment to the new variable); distinct = distinct (family, bijector spec, "
-                       "entry point, parameters, initial value, assignment list); S/A: distinct (entry point, argument shape, flags)")
+                       "entry point, parameters, initial value, assignment list); C: chained transformations (2-3 links), "
+                       "same counting; S/A/K: distinct (entry point(s), argument shape(s), flags)")
     for c in [c for c in cases if c["type"] == "R"][:3]:
         ctx.sample(jsonable({k: c[k] for k in ("fam", "params", "path", "bij", "v0", "steps")}))
     ctx.tested_not_proved += [
@@ -806,14 +1241,18 @@ def a_row(c) -> str:
 R_PER_SHARD = 8
 
 
+def goals_of(case):
+    return c_goals(case) if case["type"] == "C" else r_goals(case)
+
+
 def emit(ctx, cases):
     shards = []
-    ridx = [i for i, c in enumerate(cases) if c["type"] == "R" and "raised" not in c["obs"]]
+    ridx = [i for i, c in enumerate(cases) if c["type"] in ("R", "C") and "raised" not in c["obs"]]
     for k in range(0, len(ridx), R_PER_SHARD):
         idxs = ridx[k:k + R_PER_SHARD]
         txt = HEADER_R
         for i in idxs:
-            goals = r_goals(cases[i])
+            goals = goals_of(cases[i])
             txt += f"\nLemma case_{i} :\n  " + "\n  /\\ ".join(goals) + ".\nProof. c14_close. Qed.\n"
         shards.append((ctx.new_shard(txt), idxs))
     sidx = [i for i, c in enumerate(cases) if c["type"] == "S"]
@@ -821,6 +1260,12 @@ def emit(ctx, cases):
         idxs = sidx[k:k + 400]
         txt = HEADER_D + f"\nDefinition cases : list scase := {lst(s_row(cases[i]) for i in idxs)}.\n" \
             "Lemma shard_ok : forallb agrees_s cases = true.\nProof. vm_compute. reflexivity. Qed.\n"
+        shards.append((ctx.new_shard(txt), idxs))
+    kidx = [i for i, c in enumerate(cases) if c["type"] == "K"]
+    for k in range(0, len(kidx), 400):
+        idxs = kidx[k:k + 400]
+        txt = HEADER_D + f"\nDefinition cases : list ccase := {lst(k_row(cases[i]) for i in idxs)}.\n" \
+            "Lemma shard_ok : forallb agrees_c cases = true.\nProof. vm_compute. reflexivity. Qed.\n"
         shards.append((ctx.new_shard(txt), idxs))
     aidx = [i for i, c in enumerate(cases) if c["type"] == "A"]
     for k in range(0, len(aidx), 400):
@@ -834,7 +1279,7 @@ def emit(ctx, cases):
 def diagnose(ctx, path, idxs, cases):
     txt = open(path).read()
     if "Lemma shard_ok" in txt:
-        fn = "agrees_s" if "agrees_s" in txt else "agrees_a"
+        fn = "agrees_s" if "agrees_s" in txt else ("agrees_c" if "agrees_c" in txt else "agrees_a")
         txt = txt.split("Lemma shard_ok")[0] + f"Eval vm_compute in (failing {fn} cases).\n"
         ok, out = ctx.coq_eval(txt)
         return [idxs[j] for j in common.parse_nat_list(out) if j < len(idxs)]
@@ -844,7 +1289,7 @@ def diagnose(ctx, path, idxs, cases):
         return obad
     out_txt = HEADER_R
     for i in idxs:
-        goals = r_goals(cases[i])
+        goals = goals_of(cases[i])
         for j, gl in enumerate(goals):
             out_txt += (f"\nGoal {gl}.\nProof. tryif (solve [c14_close]) then idtac else idtac \"C14BAD {i} {j}\". Abort.\n")
     ok, out = ctx.coq_eval(out_txt)
@@ -882,6 +1327,13 @@ def search(ctx, disagreeing):
         if r:
             out.append({"why": r, **jsonable(c)})
             break
+    for _ in range(0 if out else 100):
+        c = gen_c_case(rnd, rnd.choice(list(FAMS)), rnd.choice([2, 3]), 3)
+        c["obs"] = run_c_case(c)
+        r = oracle(c)
+        if r:
+            out.append({"why": r, **jsonable(c)})
+            break
     return out
 
 
@@ -901,6 +1353,11 @@ def replay(rp) -> int:
     c.pop("why", None)
     if c["type"] == "R":
         c["obs"] = run_r_case(c)
+    elif c["type"] == "C":
+        c["obs"] = run_c_case(c)
+    elif c["type"] == "K":
+        c["kinds"] = [tuple(k) for k in c["kinds"]]
+        c["obs"] = run_k_case(c)
     elif c["type"] == "S":
         c["obs"] = run_s_case(c)
     else:
